@@ -44,6 +44,12 @@ func main() {
 			os.Exit(1)
 		}
 		fmt.Println("corpus written to", dir)
+	case "c16digest":
+		var seed, from, to int64
+		fmt.Sscan(os.Args[2], &seed)
+		fmt.Sscan(os.Args[3], &from)
+		fmt.Sscan(os.Args[4], &to)
+		checks.C16Digests(seed, from, to)
 	case "list":
 		for _, id := range core.IDs() {
 			fmt.Println(id)
